@@ -68,6 +68,26 @@ def impl():
     return _impl
 
 
+_PFN = None
+
+
+def _pcall(x):
+    return _PFN(x)
+
+
+def pmap_any(fn, items, workers):
+    """like vlib.par.pmap, but parallel also for fewer than 32 (expensive) items"""
+    global _PFN
+    items = list(items)
+    if len(items) >= 32 or len(items) <= 1:
+        return pmap(fn, items, workers=workers, chunksize=1)
+    import multiprocessing
+
+    _PFN = fn
+    with multiprocessing.get_context("fork").Pool(min(workers, len(items))) as pool:
+        return pool.map(_pcall, items, chunksize=1)
+
+
 def run_isolated(run):
     out = impl().isolated(run)
     if "obs" not in out:
@@ -78,7 +98,7 @@ def run_isolated(run):
 # --------------------------------------------------------------------------- op metadata (shared by both oracles)
 def op_target(op):
     n = op[0]
-    if n in ("read", "readtext", "readfix", "setImp", "setVol", "setNum", "remove", "edit", "write", "report"):
+    if n in ("read", "readtext", "readfix", "readrich", "setImp", "setVol", "setNum", "remove", "edit", "write", "report"):
         return op[1]
     if n == "deepcopy":
         return op[2]
@@ -104,7 +124,7 @@ def related(ops, focus):
 
 def strip_obs(o):
     """what the property compares: outcome class, exception class, bytes written / reported"""
-    return {k: o[k] for k in ("t", "v", "sha", "len", "gate", "now") if k in o}
+    return {k: o[k] for k in ("t", "v", "sha", "len", "gate", "now", "cls") if k in o}
 
 
 # --------------------------------------------------------------------------- U-world: model vs implementation
@@ -418,16 +438,45 @@ EDITS = [
 ]
 
 
-def gen_read_op(rng, pid):
+READ_OPS = ("read", "readtext", "readfix", "readrich")
+# one card per data-input family / parser class (tools/vlib/c17_impl.py: RICH_DATA, RICH_BAD)
+RICH_KINDS = ["m", "mt", "tr", "mode", "kcode", "ksrc", "si", "sp", "sdef", "f", "fm", "fs", "nps", "vol"]
+RICH_FAILS = ["cell", "surface", "read", "m", "mt", "tr", "mode", "kcode", "nps", "sdef", "f", "fm", "fs"]
+SPECIAL = ["sdef", "f", "fm", "fs"]  # the cards for which DataInput loads a specialised parser
+
+
+def gen_rich_opts(rng):
+    opts = {}
     r = rng.random()
     if r < 0.40:
+        opts["fail"] = rng.choice(RICH_FAILS + SPECIAL)
+    if rng.random() < 0.6:
+        opts["end"] = rng.choice(RICH_KINDS + SPECIAL)
+    if rng.random() < 0.5:
+        opts["first"] = rng.choice([k for k in RICH_KINDS + SPECIAL if k != opts.get("end")])
+    return opts
+
+
+def rich_reads():
+    """every read that ends in each card family, and every read that fails in each parser class"""
+    out = [["readrich", 7, {"end": k}] for k in RICH_KINDS]
+    out += [["readrich", 7, {"fail": k}] for k in RICH_FAILS]
+    out += [["readrich", 7, {"fail": k, "first": k}] for k in SPECIAL]
+    return out
+
+
+def gen_read_op(rng, pid):
+    r = rng.random()
+    if r < 0.30:
         return ["readfix", pid, rng.choice(FIX_OK)]
-    if r < 0.55:
+    if r < 0.42:
         return ["readfix", pid, rng.choice(FIX_BAD)]
-    if r < 0.67:
+    if r < 0.52:
         return ["readtext", pid, {"p.i": PERIODIC_TEXT}, "p.i"]
-    if r < 0.78:
+    if r < 0.60:
         return ["readtext", pid, READ_FIRST_TEXT, "top.i"]
+    if r < 0.85:
+        return ["readrich", pid, gen_rich_opts(rng)]
     return ["read", pid, gen_files(rng, clean=rng.random() < 0.5), 0]
 
 
@@ -455,6 +504,23 @@ def gen_interleaving(rng):
     for p in pids[:2]:
         ops.append(["write", p])
     return {"kind": "interleave", "ops": ops}
+
+
+def enumerated_interleavings(all_probes=True):
+    """reads in both orders: a read of problem 1 that ends in each card family or fails in each parser class, before
+    and after the read of an unrelated valid problem 0 (three probes), which is then written"""
+    probes = [
+        ["readrich", 0, {"first": "kcode"}],  # generic data cards before the first tally / source card
+        ["readrich", 0, {"first": "sdef", "end": "nps"}],
+        ["readfix", 0, "test.imcnp"],
+    ]
+    if not all_probes:
+        probes = probes[:2]
+    for other in rich_reads():
+        o = ["readrich", 1, other[2]]
+        for probe in probes:
+            yield {"kind": "interleave", "ops": [o, probe, ["write", 0], ["report", 0]]}
+            yield {"kind": "interleave", "ops": [probe, o, ["write", 0], ["report", 0], ["readrich", 2, {}], ["write", 2]]}
 
 
 def project(ops, rel):
@@ -508,9 +574,12 @@ def classify(ops, full_obs, verdict):
     latch = any(x.get("info", {}).get("cell_changed") or x.get("state", {}).get("latched") for x in full_obs[: i + 1])
     if latch:
         cls = "setter-latch"
-    elif op[0] in ("read", "readtext", "readfix") and before.get("log"):
+    elif before.get("class_state"):
+        cls = "class-attr-latch"
+        site = before["class_state"][0] + " @ " + site
+    elif op[0] in READ_OPS and before.get("log"):
         cls = "log-leak"
-    elif op[0] in ("read", "readtext", "readfix") and before.get("queue"):
+    elif op[0] in READ_OPS and before.get("queue"):
         cls = "queue-leak"
     elif copy_family:
         cls = "deepcopy-aliasing"
@@ -588,7 +657,7 @@ def build_call_matrix():
 
 
 def strip_call(o):
-    return {k: o[k] for k in ("t", "v", "gate", "now") if k in o}
+    return {k: o[k] for k in ("t", "v", "gate", "now", "cls", "sha") if k in o}
 
 
 def fresh_outcome(call):
@@ -620,6 +689,35 @@ CALL_EXTRAS = [
     ["readfix", 5, "testRead.imcnp"],
     ["readfix", 5, "test_bad_syntax.imcnp"],
 ]
+
+
+MAKE_CALLS = [
+    # direct construction from an Input — every parser class and data-input family, valid and malformed
+    ["make", "cell", "1 0 -1 imp:n=1"],
+    ["make", "cell", "2 1 -1.5 -1 2 imp:n=1 vol=3"],
+    ["make", "cell", "3 0 2 ) ("],
+    ["make", "surface", "1 pz 0"],
+    ["make", "surface", "2 cz 3"],
+    ["make", "surface", "3 so 10 )"],
+    ["make", "readinput", "read file=a.txt"],
+    ["make", "material", "m1 1001.80c 2 8016.80c 1"],
+    ["make", "thermal", "mt1 lwtr.20t"],
+    ["make", "transform", "tr1 0 0 1"],
+    ["make", "mode", "mode n p"],
+    ["make", "volume", "vol 1 2"],
+    ["make", "importance", "imp:n 1 0"],
+    ["make", "universe_input", "u 1 2"],
+    ["make", "lattice", "lat 1 1"],
+    ["make", "fill", "fill 1 2"],
+]
+for _text in [
+    "m1 1001.80c 2 8016.80c 1", "mt1 lwtr.20t", "tr1 0 0 1", "mode n", "vol 1 2", "imp:n 1 0",
+    "nps 1e6", "ksrc 0 0 0", "kcode 1000 1.0 10 50", "si1 l 1 2 3", "sp1 d 0.2 0.3 0.5", "print", "cut:n 1e6 0.1",
+    "sdef pos=0 0 0 erg=1", "f4:n 1", "f4:n (1 2) 3", "fm4 1.0", "fs4 -1", "e4 1 2 3",
+    "sdef pos=0 0 0 erg=", "f4:n (1 2", "nps (", "m1 (",
+]:
+    MAKE_CALLS.append(["make", "data", _text])  # parse_data: the path a read takes
+    MAKE_CALLS.append(["make", "datainput", _text])  # DataInput(input) without the internal prefix argument
 
 
 def pairs_shrink(prefix, call, fresh):
@@ -725,8 +823,13 @@ def report_pair(chk, prefix, call, fresh, got, obs):
     before = seq[-2].get("state", {}) if len(seq) > 1 else {}
     info = seq[-1].get("info", {})
     site = f"{info.get('owner')}.{call[2]}" if call[0] == "setprop" and info.get("owner") else call[0]
+    if call[0] == "make":
+        site = f"make:{call[1]}"
     if latch:
         cls = "setter-latch"
+    elif before.get("class_state"):
+        cls = "class-attr-latch"
+        site = before["class_state"][0] + " @ " + site
     elif before.get("log") and (call[0].startswith("read") or not info):
         cls = "log-leak"  # a read, or the construction of the call's objects from text, met a dirty parser log
     elif call[0].startswith("read") and before.get("queue"):
@@ -822,6 +925,17 @@ def run(chk):
 
     corpus = load_corpus()
 
+    import time
+
+    t_phase = time.time()
+    chk.extra["phase_wall_s"] = {}
+
+    def phase(name):
+        nonlocal t_phase
+        chk.extra["phase_wall_s"][name] = round(time.time() - t_phase, 1)
+        t_phase = time.time()
+
+    phase("prove+build")
     # ---- U-world ---------------------------------------------------------------------------------------------
     rng = chk.rng("world")
     wcases = [c for c in corpus if c.get("kind") == "world"]
@@ -844,6 +958,7 @@ def run(chk):
                 if st.get("queue"):
                     chk.count("state:queue-nonempty-after-op")
 
+    phase("U-world")
     # ---- (a) interleavings -----------------------------------------------------------------------------------
     rng = chk.rng("interleave")
     icases = [c for c in corpus if c.get("kind") == "interleave"]
@@ -851,9 +966,16 @@ def run(chk):
     # the modelled cases are histories on several problems too: judge them with the same oracle
     icases += [dict(c, kind="interleave") for c in wcases[nwc : nwc + chk.pick(120, 1500)]]
     nfrom_world = len(icases) - nic
+    enum_i = list(enumerated_interleavings(chk.thorough))
+    icases += enum_i
     icases += [gen_interleaving(rng) for _ in range(chk.pick(150, 4000))]
     ievs = pmap(interleave_eval, icases, workers=WORKERS, chunksize=2)
-    chk.units["interleavings"] = {"corpus": nic, "modelled": nfrom_world, "random": len(icases) - nic - nfrom_world}
+    chk.units["interleavings"] = {
+        "corpus": nic,
+        "modelled": nfrom_world,
+        "enumerated_reads_in_both_orders": len(enum_i),
+        "random": len(icases) - nic - nfrom_world - len(enum_i),
+    }
     for case, ev in zip(icases, ievs):
         if "failed" in ev:
             chk.count("flaky:interleave-run-failed")
@@ -865,12 +987,13 @@ def run(chk):
         if v is not None:
             report_interleave(chk, case, v)
 
+    phase("interleavings")
     # ---- (b) (prefix, call) ----------------------------------------------------------------------------------
     rng = chk.rng("pairs")
     matrix = build_call_matrix()
     self_typed = [c for c in matrix if c[2] in ("periodic_surface", "left", "right")]
     others = [c for c in matrix if c not in self_typed]
-    sample = self_typed + (others if chk.thorough else rng.sample(others, min(len(others), 600))) + CALL_EXTRAS
+    sample = self_typed + (others if chk.thorough else rng.sample(others, min(len(others), 600))) + CALL_EXTRAS + MAKE_CALLS
     fresh = pmap(fresh_outcome, sample, workers=WORKERS, chunksize=16)
     fresh_of = {}
     for c, f in zip(sample, fresh):
@@ -887,11 +1010,35 @@ def run(chk):
             f = fresh_outcome(c["call"])
             if "failed" not in f:
                 fresh_of[canon(c["call"])] = f
+    # exhaustive: every direct construction right after every read that ends in a card family / fails in a parser class
+    # (the prefix runs once in a child; each call runs in its own fork of the state the prefix left behind)
+    prefix_reads = rich_reads()
+    fan_calls = [c for c in MAKE_CALLS if canon(c) in fresh_of]
+    fans = pmap_any(lambda pre: run_isolated({"ops": [pre], "fanout": fan_calls, "state": True}), prefix_reads, WORKERS)
+    nenum = 0
+    for pre, fr in zip(prefix_reads, fans):
+        if "failed" in fr or "fan" not in fr:
+            chk.count("flaky:fanout-run-failed")
+            continue
+        for call, o in zip(fan_calls, fr["fan"]):
+            if "obs" not in o:
+                chk.count("flaky:fanout-call-failed")
+                continue
+            nenum += 1
+            chk.evaluations += 1
+            chk.count("pair:read-then-" + call[0])
+            got = strip_call(o["obs"][0])
+            if got != fresh_of[canon(call)]:
+                report_pair(chk, [pre], call, fresh_of[canon(call)], got, None)
     for _ in range(chk.pick(80, 1500)):
         seq = [list(c) for c in rng.sample(calls, min(len(calls), rng.choice([20, 60, 150])))]
         # unrelated reads, failing reads, edits and writes in between
         for _ in range(rng.randint(0, 4)):
             seq.insert(rng.randrange(len(seq) + 1), rng.choice(PREFIX_EXTRAS))
+        for _ in range(rng.randint(0, 3)):
+            seq.insert(rng.randrange(len(seq) + 1), rng.choice(prefix_reads))
+        for _ in range(8):
+            seq.insert(rng.randrange(len(seq) + 1), list(rng.choice(MAKE_CALLS)))
         # make sure the self-typed properties meet every class order
         for _ in range(6):
             seq.insert(rng.randrange(len(seq) + 1), list(rng.choice(self_typed)))
@@ -918,11 +1065,14 @@ def run(chk):
         "calls_with_fresh_outcome": len(fresh_of),
         "self_typed_calls": len(self_typed),
         "sequences": len(sequences),
+        "enumerated_read_then_construct_pairs": nenum,
+        "construct_calls": len(MAKE_CALLS),
         "pairs_compared": npairs,
     }
     for c, f in fresh_of.items():
         chk.count("fresh:" + (f.get("v") if f.get("t") == "err" else f.get("t", "?")))
 
+    phase("pairs")
     # ---- (c) fresh interpreters and hash seeds ------------------------------------------------------------------
     rng = chk.rng("fresh")
     jobs, meta = [], []
@@ -942,8 +1092,8 @@ def run(chk):
     # (prefix, call) in genuinely fresh interpreters: one interpreter for the call alone, one for prefix + call
     fresh_pairs = []
     for _ in range(chk.pick(10, 60)):
-        call = list(rng.choice(self_typed + CALL_EXTRAS))
-        prefix = [list(c) for c in rng.sample(self_typed, 5)] + [rng.choice(PREFIX_EXTRAS)]
+        call = list(rng.choice(self_typed + CALL_EXTRAS + MAKE_CALLS + MAKE_CALLS))
+        prefix = [list(c) for c in rng.sample(self_typed, 5)] + [rng.choice(PREFIX_EXTRAS), rng.choice(prefix_reads)]
         rng.shuffle(prefix)
         fresh_pairs.append((prefix, call))
     for c in pcases:
@@ -1014,6 +1164,7 @@ def run(chk):
                 )
         if fa != fb:
             report_pair(chk, prefix, call, fa, fb, b[0]["obs"])
+    phase("fresh-interpreters")
     chk.units["fresh-interpreters"] = {
         "hashseeds": [0, 1, 12345],
         "interleavings_per_seed": len(hs_cases),
